@@ -187,6 +187,46 @@ func oddHooksRefuse(ctx *engine.Ctx, cs any, inv *invocation.Token, ld delegatio
 	}
 }
 
+// panickingLoader panics with a chosen value when asked for one CID (a store that lost its connection and whose
+// client panics, a nil map behind a cache ...).
+type panickingLoader struct {
+	delegation.Loader
+	at  cid.Cid
+	val any
+}
+
+func (l panickingLoader) GetDelegation(c cid.Cid) (*delegation.Token, error) {
+	if c == l.at {
+		panic(l.val)
+	}
+	return l.Loader.GetDelegation(c)
+}
+
+type c0xPanicValue struct{ code int }
+
+// loaderPanicsRefuse: a check that must be refused is not reported as allowed when the loader panics instead of
+// answering - whatever the panic carries (text, number, struct: values that are neither errors nor Stringers
+// included). The panic may reach the caller; "allowed" may not come back.
+func loaderPanicsRefuse(ctx *engine.Ctx, cs any, inv *invocation.Token, ld delegation.Loader, prf []cid.Cid, why string) {
+	for pi, at := range prf {
+		for vi, val := range []any{"store unavailable", 42, c0xPanicValue{7}} {
+			var e error
+			func() {
+				defer func() {
+					if recover() != nil {
+						e = errPanicked
+					}
+				}()
+				e = inv.ExecutionAllowed(panickingLoader{ld, at, val})
+			}()
+			ctx.Eval(1)
+			if e == nil {
+				ctx.Failf(cs, "allowed-when-the-loader-panics/"+[3]string{"string", "int", "struct"}[vi], "ExecutionAllowed returns nil (allowed) when the loader panics with a %T for proof %d, for a check that must be refused: %s", val, pi, why)
+			}
+		}
+	}
+}
+
 // Principal layouts of an n-link chain (link i: issuer = holder i+1, audience = holder i; holder n is
 // the subject p0, holder 0 the invoker).
 //
